@@ -23,6 +23,7 @@ SAN_ENV = {
 harness("c08_symbols", "san", "pbt/c08_symbols.cc", link="-lrapidcheck")
 harness("geom_pbt", "san", "pbt/geom_pbt.cc", link="-lrapidcheck")
 harness("c13_corner_table", "san", "pbt/c13_corner_table.cc", link="-lrapidcheck")
+harness("prim_pbt", "san", "pbt/prim_pbt.cc", link="-lrapidcheck")
 
 # ------------------------------------------------------------------------------------------------
 
@@ -313,7 +314,36 @@ def check_c13(tier):
                   assumptions=["exhaustive only for the enumerated sub-space (see exhaustive_part); larger lists are sampled"])
 
 
+def check_prim(prop, mode, tier, quick_cases, thorough_cases, required, assumptions):
+    t0 = time.time()
+    exe = ensure_built(["prim_pbt"])["prim_pbt"]
+    res = Result()
+    run_shards(res, prop, "prim_pbt", exe, mode + "enum", tier, 16, 1, extra_args=["--enum"], label="enum")
+    run_shards(res, prop, "prim_pbt", exe, mode, tier, 16, quick_cases if tier == "quick" else thorough_cases)
+    res.required_classes = required
+    res.exhaustive = None
+    return finish(prop, tier, res, t0, assumptions=assumptions)
+
+
+def check_c16(tier):
+    return check_prim("C16", "c16", tier, 20000, 300000,
+                      ["wrap_cases", "octahedral_q_2_8", "octahedral_q_9_20", "octahedral_q_21_30",
+                       "wrap_tuples_enumerated", "octahedral_pairs_enumerated"],
+                      ["exhaustive only for the enumerated sub-spaces named in the rule; 32-bit ranges and q >= 6/7 are sampled",
+                       "the set of canonical octahedral coordinates is defined by OctahedronToolBox::CanonicalizeOctahedralCoords (fixed points)"])
+
+
+def check_c17(tier):
+    return check_prim("C17", "c17", tier, 4000, 60000,
+                      ["op_scalar", "op_bytes", "op_varint", "op_bit_region", "coder_0", "coder_1", "coder_2", "coder_3",
+                       "coder_4", "coder_bulk_run", "varint_values_enumerated_uint16", "varint_values_enumerated_int16"],
+                      ["bit-mode regions respect the caller contract sum(nbits) <= required_bits",
+                       "32/64-bit varints are boundary-biased samples, 8/16-bit ones exhaustive"])
+
+
 CHECKS = {
+    "C16": check_c16,
+    "C17": check_c17,
     "C13": check_c13,
     "C04": check_c04,
     "C10": check_c10,
@@ -326,6 +356,8 @@ CHECKS = {
 REPLAYERS = {
     # property -> list of (harness, default mode)
     "C13": [("c13_corner_table", "c13")],
+    "C16": [("prim_pbt", "c16")],
+    "C17": [("prim_pbt", "c17")],
     "C01": [("geom_pbt", "c01")],
     "C04": [("geom_pbt", "c04")],
     "C10": [("geom_pbt", "c10")],
